@@ -123,3 +123,15 @@ Print Assumptions C05_served_by_session_state_without_leftover.
 Theorem C05_refuted_request_buffered_before_the_switch :
   p_served (prun false injected) = [[Plain]] /\ p_served (prun true injected) = [].
 Proof. exact by_state_refuted. Qed.
+
+(** /repo since repair cfc28f0 hands plaintext to the HTTP layer one request at a time ([framed]:
+    when a request is taken out of the buffer nothing beyond it is buffered).  For EVERY such history,
+    serving by the state of the session — what /repo does — releases only what the peer sealed; the
+    history of the finding is not among them. *)
+Theorem C05_framed_reads_serve_only_sealed : forall evs,
+  framed 0 evs = true -> Forall (fun r => all_sealed r = true) (p_served (prun false evs)).
+Proof. exact framed_reads_serve_only_sealed. Qed.
+Print Assumptions C05_framed_reads_serve_only_sealed.
+
+Example C05_finding_history_is_not_framed : framed 0 injected = false.
+Proof. exact injected_is_not_framed. Qed.
